@@ -307,3 +307,43 @@ def run(F, rep, core):
                       "Value::write_le emits a payload for Value::%s but Value::from_le has %s: a nested constant of that kind (e.g. as a set element) panics the loader" % (
                           v, ("no arm for ValueKind::%s" % v) if v not in rarms else ("an arm that builds Value::%s" % rarms[v])),
                       "Value::from_le (mech_core.lib)", sample={"variant": v})
+
+
+def compile_errors_propagate(F, rep, core):
+    """C06-R14: a value that has no constant encoding makes compile() return an error, not panic"""
+    rep.rule("C06-R14", "compile errors propagate: Value::compile_const ends in an Err (not todo!/panic) for the variants it does not encode, and no compile_const result is unwrapped "
+                        "in the crates that compile plan steps (`compile_register*` macros use `?`)")
+    vc = [it for it in core if it["k"] == "method" and it["name"] == "compile_const" and it["trait"] and last_seg(it["trait"]) == "CompileConst" and X.type_head(it["self"]) == "Value"]
+    if rep.check(len(vc) == 1, "C06-R14", "anchor:Value::compile_const", "Value::compile_const not found"):
+        wild = []
+        outer = next(iter(find(vc[0]["body"], "match")), None)       # pre-order: the outermost match over the Value variants
+        for a in (outer[2] if outer else []):
+            if a[0][0] in ("pident", "pwild") and a[1] is None:
+                wild.append(a)
+        rep.floor("C06-R14", "catch-all arms in Value::compile_const", len(wild), 1)
+        for a in wild[-1:]:
+            txt = render(a[2])
+            panics = re.search(r"panicking::|todo!|unimplemented!|unreachable!|panic!", txt) is not None
+            rep.check(not panics and "Err(" in txt, "C06-R14", "Value::compile_const:catch-all-is-an-error",
+                      "Value::compile_const: the arm for the variants without a constant encoding is `%s`: compiling a program that defines such a value (a kind, a tuple struct, a map ...) panics instead of reporting an error" % txt[:60],
+                      "Value::compile_const (mech_core.lib)")
+    n = 0
+    bad = {}
+    for crate in sorted(set(X.FXN_CRATES) | {"mech_core.lib", "mech_interpreter.lib"}):
+        for it in F.syn(crate):
+            if it["k"] not in ("fn", "method") or not it.get("body"):
+                continue
+            for m in find(it["body"], "mcall"):
+                # compile_const_mat on a typed matrix of primitives cannot hit the unencodable-variant error; only the Value-level entry is judged
+                if m[2] in ("unwrap", "expect") and is_node(m[1]) and m[1][0] == "mcall" and m[1][2] in ("compile_const",):
+                    n += 1
+                    bad.setdefault(crate, 0)
+                    bad[crate] += 1
+            for m in find(it["body"], "try"):
+                if is_node(m[1]) and m[1][0] == "mcall" and m[1][2] in ("compile_const", "compile_const_mat"):
+                    n += 1
+    for crate, cnt in sorted(bad.items()):
+        rep.bad("C06-R14", "unwrapped-compile_const:%s" % crate, "%d compile_const result(s) are unwrapped in %s (through the compile_register* macros): an unencodable operand panics Interpreter::compile" % (cnt, crate), crate)
+    if not bad:
+        rep.ok("C06-R14", "compile_const-results-propagated", sample={"sites": n})
+    rep.floor("C06-R14", "compile_const call sites whose result is propagated or unwrapped", n, 1000)
